@@ -532,6 +532,66 @@ pub fn lookup(name: &str) -> Option<OpFn> {
             r.push(Quaternion::from(e).magnitude2() - X::int(1));
             ok(r)
         },
+        // ---------------------------------------------------------------- C09 (exact on rational frames)
+        "o.look.rigid" => |a| {
+            let (eye, d, up) = (a.p3(), a.v3(), a.v3());
+            let sq = |x: X| x.val().exact_sqrt().is_some() && !x.val().is_zero();
+            let f0 = d / { if !sq(d.magnitude2()) { return Out::Skip; } d.magnitude() };
+            if !sq(f0.cross(up).magnitude2()) { return Out::Skip; }
+            let (zero, one) = (X::int(0), X::int(1));
+            let up3 = |m: Matrix4<X>| Matrix3::from_cols(m.x.truncate(), m.y.truncate(), m.z.truncate());
+            let mut r = vec![];
+            for (m, sign) in [(Matrix4::look_to_rh(eye, d, up), -one), (Matrix4::look_to_lh(eye, d, up), one)] {
+                let rot = up3(m);
+                r.extend(diff(rot.transpose() * rot, Matrix3::identity()));
+                r.push(rot.determinant() - one);
+                r.extend(vec![m.x.w, m.y.w, m.z.w, m.w.w - one]);
+                r.extend(diff(m.transform_point(eye), Point3::new(zero, zero, zero)));
+                r.extend(diff(m.transform_vector(d), Vector3::new(zero, zero, sign * d.magnitude())));
+                let tu = m.transform_vector(up);
+                r.push(tu.x);
+                r.push(if tu.y.val().neg { one } else { zero });
+            }
+            // agreement of all entry points of one handedness
+            let center = eye + d;
+            let (m3l, m3r) = (Matrix3::look_to_lh(d, up), Matrix3::look_to_rh(d, up));
+            let (lh, rh) = (Matrix4::look_to_lh(eye, d, up), Matrix4::look_to_rh(eye, d, up));
+            r.extend(diff(up3(lh), m3l));
+            r.extend(diff(up3(rh), m3r));
+            r.extend(diff(Matrix4::look_at_rh(eye, center, up), rh));
+            r.extend(diff(Matrix4::look_at_lh(eye, center, up), lh));
+            r.extend(diff(<Matrix4<X> as Transform<Point3<X>>>::look_at_rh(eye, center, up), rh));
+            r.extend(diff(<Matrix4<X> as Transform<Point3<X>>>::look_at_lh(eye, center, up), lh));
+            r.extend(diff(<Matrix3<X> as Transform<Point3<X>>>::look_at_rh(eye, center, up), m3r));
+            r.extend(diff(<Matrix3<X> as Transform<Point3<X>>>::look_at_lh(eye, center, up), m3l));
+            let b: Basis3<X> = Rotation::look_at(d, up);
+            r.extend(diff(Matrix3::from(b), m3l));
+            let q: Quaternion<X> = Rotation::look_at(d, up);
+            // the quaternion is the conversion of the left-handed matrix: same rotation
+            r.extend(diff(Matrix3::from(q), m3l));
+            let p = Point3::new(one, X::int(2), X::int(-3));
+            let db: Decomposed<Vector3<X>, Basis3<X>> = Transform::look_at_lh(eye, center, up);
+            let dbr: Decomposed<Vector3<X>, Basis3<X>> = Transform::look_at_rh(eye, center, up);
+            r.extend(diff(db.transform_point(p), lh.transform_point(p)));
+            r.extend(diff(dbr.transform_point(p), rh.transform_point(p)));
+            let dq: Decomposed<Vector3<X>, Quaternion<X>> = Transform::look_at_rh(eye, center, up);
+            r.extend(diff(dq.transform_point(p), rh.transform_point(p)));
+            r.extend(diff(db.transform_point(eye), Point3::new(zero, zero, zero)));
+            ok(r)
+        },
+        "o.look.2d" => |a| {
+            let (d, up) = (a.v2(), a.v2());
+            if d.magnitude2().val().exact_sqrt().is_none() || is0(&[d.magnitude2()]) { return Out::Skip; }
+            let m = Matrix2::look_at(d, up);
+            let (zero, one) = (X::int(0), X::int(1));
+            let mut r = diff(m.x, d / d.magnitude());
+            r.push(m.x.dot(m.y));
+            r.push(m.y.magnitude2() - one);
+            r.push(if m.y.dot(up).val().neg { one } else { zero });
+            let b: Basis2<X> = Rotation::look_at(d, up);
+            r.extend(diff(Matrix2::from(b), m));
+            ok(r)
+        },
         // ---------------------------------------------------------------- C10
         "o.proj.ortho" => |a| {
             let v: Vec<X> = (0..6).map(|_| a.x()).collect();
@@ -725,7 +785,7 @@ pub fn names() -> Vec<String> {
     let mut v: Vec<String> = ["o.v3.lagrange", "o.v3.cross_cross", "o.v3.cross_orth", "o.v.dot_bilinear",
         "o.m4.constructors", "o.m3.constructors", "o.m.embed", "o.p3.homogeneous",
         "o.q.algebra", "o.q.invert", "o.q.rotate", "o.q.compose", "o.q.same_rotation", "o.q.roundtrip",
-        "o.v1.metric", "o.v2.metric", "o.v3.metric", "o.v4.metric", "o.q.metric", "o.euler.product", "o.rot.axis_angle", "o.rad.modular", "o.deg.modular", "o.angle.convert", "o.proj.ortho", "o.proj.frustum", "o.proj.perspective", "o.proj.planar", "o.dq.matrix", "o.db2.matrix", "o.m4.transform", "o.m3.transform",
+        "o.v1.metric", "o.v2.metric", "o.v3.metric", "o.v4.metric", "o.q.metric", "o.look.rigid", "o.look.2d", "o.euler.product", "o.rot.axis_angle", "o.rad.modular", "o.deg.modular", "o.angle.convert", "o.proj.ortho", "o.proj.frustum", "o.proj.perspective", "o.proj.planar", "o.dq.matrix", "o.db2.matrix", "o.m4.transform", "o.m3.transform",
         "o.dq.laws", "o.dq.inverse", "o.db3.laws", "o.db3.inverse", "o.db2.laws", "o.db2.inverse"]
         .iter()
         .map(|s| s.to_string())
